@@ -431,3 +431,18 @@ func init() {
 		Assumptions: []string{"alpha, offsets and probe values are sampled; per hop the statement is a pure function, the simulator contributes chains, pairs and refusal under traffic", sampleAssumption},
 	})
 }
+
+func init() {
+	engine.Register(&engine.Prop{
+		ID: "C17", Level: "exploration", World: "fleet",
+		QuickRuns: 10000, ThoroughRuns: 1000000,
+		Generate: GenFleet(&fleetProfile{prop: "C17", stores: allKinds, roles: []string{"sketch", "sketch", "exact"}, minNodes: 1, maxNodes: 2,
+			weights: []string{"unit", "int", "frac"}, valueSigns: []string{"pos", "neg", "mixed", "zeros"}, moderate: true,
+			ops: map[string]int{"add": 30, "addw": 15, "burst": 6, "chmap": 25, "copy": 1, "clear": 2, "reweight": 2, "query": 3}, queryEvery: 0, maxOps: 60}),
+		Execute:    ExecFleet,
+		NonTrivial: nonTrivialFleet(2, "chmap"),
+		Rule:       "seeded simulations with a converter node applying ChangeMapping (all ordered pairs of mapping kinds; coarser, finer and equal accuracy; scale factors in [1e-3,1e3] including powers of the source base, the bin-aligned case) to sketches in reachable states; " + distinctRule + "; non-trivial = at least 2 mutations and a conversion",
+		Real:       realFleetComponents, Stub: stubFleetComponents,
+		Assumptions: []string{"tolerances of DESIGN 4.4: total weight within 1e-9*W, slivers below 1e-9*W ignored, rank window slack 1e-6*(W+1)", "values are kept at least a factor 1e3 inside both mappings' ranges after scaling; collapsed (folded) sources are not converted", "the data is sampled"},
+	})
+}
